@@ -589,7 +589,7 @@ class ZoneSpecifier:
     ) -> Optional[Transition]:
         """Return Transition for the given datetime.
         """
-        self.init_for_year(dt.year)
+        self._init_for_datetime(dt)
         return self._find_transition_for_datetime(dt)
 
     def get_timezone_info_for_seconds(self, epoch_seconds: int) -> OffsetInfo:
@@ -608,7 +608,7 @@ class ZoneSpecifier:
     ) -> Optional[OffsetInfo]:
         """Return the OffsetInfo of the Transition for a given datetime.
         """
-        self.init_for_year(dt.year)
+        self._init_for_datetime(dt)
         transition = self._find_transition_for_datetime(dt)
         return transition.to_timezone_tuple() if transition else None
 
@@ -761,6 +761,18 @@ class ZoneSpecifier:
             year = ldt.year
 
         self.init_for_year(year)
+
+    def _init_for_datetime(self, dt: datetime) -> None:
+        """Initialize the Transitions for the given local datetime. A viewing
+        window that begins on Jan 1 has no transition before a change that
+        happens at the very start of the year, so a local time in the gap of
+        such a change could not fall back to the prior transition. Use the
+        window of the previous year for Jan 1, as _init_for_second() does.
+        """
+        if self.viewing_months < 14 and dt.month == 1 and dt.day == 1:
+            self.init_for_year(dt.year - 1)
+        else:
+            self.init_for_year(dt.year)
 
     def _find_transition_for_seconds(
         self,
